@@ -18,7 +18,7 @@ def row(m):
 total = len(metas); caught = sum(1 for m in metas if m.get("caught_by"))
 out = []
 out.append("## Appendix E — seeded defects (sensitivity)\n")
-out.append(f"""Four rounds of 18 seeded defects each (two per claimed property per round),
+out.append(f"""Five rounds of 18 seeded defects each (rounds 1–4: two per claimed property; round 5: two per group of source files, the author choosing which property to break),
 every one written by a fresh sub-agent that was given only the text of one
 property and its own scratch git worktree of `/repo` under `/tmp` — nothing
 from `/verif`. Rounds 2 to 4 additionally received one-line summaries of the
@@ -37,7 +37,7 @@ registered quick check(s), and reverted — `tools/run_seeded.py` (results in ea
 quick tier. The last column says what the machinery needed in order to catch
 the defect when it did not as it stood at the time the defect was written.
 """)
-for r in (1, 2, 3, 4):
+for r in (1, 2, 3, 4, 5):
     ms = [m for m in metas if rnd(m) == r]
     if not ms: continue
     out.append(f"\n### Round {r}\n")
